@@ -2,7 +2,7 @@
    Clause (b), losslessness/transparency of dill dump/load, is NOT a theorem (dill is not modelled);
    it is checked by a differential test in tools/props/c13.py and the property is claimed partial. *)
 From Coq Require Import ZArith List Bool Sorted.
-From Bingo Require Import Model.Checkpoint Proofs.CheckpointProofs.
+From Bingo Require Import Model.Checkpoint Gen.CheckpointRules Proofs.CheckpointProofs Proofs.CheckpointRulesProofs.
 Import ListNotations.
 Local Open Scope Z_scope.
 
@@ -60,6 +60,27 @@ Proof. reflexivity. Qed.
 
 (* second call on the same optimizer: it re-writes <base>_<age>.pkl for the unchanged age.  With the
    atomic write the old complete file is still there while the new one is being written. *)
+(* the tie by translation: the model's file operations of one checkpoint are exactly those the current source performs, in
+   its statement order, with its over-the-limit test and its choice of the OLDEST file for removal (Gen/CheckpointRules.v is
+   regenerated from evolutionary_optimizer.py on every run by tools/translate/tr_checkpoint.py, which pins the statements of
+   dump_to_file, _update_checkpoints and _remove_stale_checkpoint) *)
+Theorem C13_model_checkpoint_operations_are_the_source_operations :
+  forall num prev a,
+  ckpt_ops num prev a =
+  match num with
+  | None => (gen_write_ops a, prev)
+  | Some n =>
+    let prev' := prev ++ [a] in
+    if gen_over n (length prev') then
+      match gen_remove_oldest prev' with
+      | Some (rm, rest) => (gen_write_ops a ++ [rm], rest)
+      | None => (gen_write_ops a, prev')
+      end
+    else (gen_write_ops a, prev')
+  end.
+Proof. exact ckpt_ops_is_source. Qed.
+Print Assumptions C13_model_checkpoint_operations_are_the_source_operations.
+
 Example C13_second_call_keeps_the_old_checkpoint_during_the_rewrite :
   let after_call1 := run_ops (call_ops (Some 1%nat) [] [0; 2; 4]) (fun _ => None) in
   after_call1 (Final 4) = Some (Complete 4) /\
